@@ -106,12 +106,25 @@ def gen_lean():
         raise ValueError("compl_symbol_dict is not a letter->letter dict")
     prot = _class_body(seqtypes, "ProteinSequence")
     palph = _letter_alphabet_literal(_assign_value(prot, "alphabet"), "ProteinSequence.alphabet")
-    d13 = ast.literal_eval(_assign_value(prot, "_dict_1to3"))
+    # the 1->3 letter dict and the extra 3->1 entries are found by their shape, not by their (private) names
+    d13 = None
     extra31 = []
-    for node in prot.body:   # _dict_3to1["SEC"] = "C"
-        if isinstance(node, ast.Assign) and isinstance(node.targets[0], ast.Subscript) \
-                and getattr(node.targets[0].value, "id", None) == "_dict_3to1":
-            extra31.append((ast.literal_eval(node.targets[0].slice), ast.literal_eval(node.value)))
+    for node in prot.body:
+        if isinstance(node, ast.Assign) and isinstance(node.value, ast.Dict) and node.value.keys:
+            try:
+                d = ast.literal_eval(node.value)
+            except Exception:  # noqa: BLE001
+                continue
+            if all(isinstance(k, str) and isinstance(v, str) and len(k) == 1 and len(v) == 3 for k, v in d.items()):
+                if d13 is not None:
+                    raise ValueError("two 1->3 letter dicts in ProteinSequence")
+                d13 = d
+        if isinstance(node, ast.Assign) and isinstance(node.targets[0], ast.Subscript) and isinstance(node.targets[0].value, ast.Name) \
+                and isinstance(node.targets[0].slice, ast.Constant) and isinstance(node.value, ast.Constant) \
+                and isinstance(node.value.value, str) and len(node.value.value) == 1:
+            extra31.append((node.targets[0].slice.value, node.value.value))
+    if d13 is None:
+        raise ValueError("1->3 letter dict of ProteinSequence not found")
     # LetterAlphabet.PRINTABLES
     alph_src = open(os.path.join(base, "alphabet.py")).read()
     la = _class_body(ast.parse(alph_src), "LetterAlphabet")
@@ -126,21 +139,35 @@ def gen_lean():
         raise ValueError(f"cannot evaluate LetterAlphabet.PRINTABLES: {e}")
     # codon.py: column offsets of load(), default table
     codon_src = open(os.path.join(base, "codon.py")).read()
+    codon_tree = ast.parse(codon_src)
+    load_fn = _sf_find(codon_tree, "CodonTable", "load")
     fields = {}
-    for m in re.finditer(r'line\.startswith\("(\w+)"\):\s*\n(?:\s*#[^\n]*\n)*\s*(\w+) = line\[(\d+):\]\.strip\(\)', codon_src):
-        fields[m.group(1)] = int(m.group(3))
+    for node in ast.walk(load_fn):      # `if X.startswith("AA"): y = X[5:].strip()` — whatever X and y are called
+        if isinstance(node, ast.If) and isinstance(node.test, ast.Call) and isinstance(node.test.func, ast.Attribute) \
+                and node.test.func.attr == "startswith" and node.test.args and isinstance(node.test.args[0], ast.Constant):
+            for st in node.body:
+                if isinstance(st, ast.Assign) and isinstance(st.value, ast.Call) and isinstance(st.value.func, ast.Attribute) \
+                        and st.value.func.attr == "strip" and isinstance(st.value.func.value, ast.Subscript) \
+                        and isinstance(st.value.func.value.slice, ast.Slice) and isinstance(st.value.func.value.slice.lower, ast.Constant):
+                    fields[node.test.args[0].value] = st.value.func.value.slice.lower.value
     fields = {k: v for k, v in fields.items() if k in ("AA", "Init", "Base1", "Base2", "Base3")}   # only the table rows
     if sorted(fields) != ["AA", "Base1", "Base2", "Base3", "Init"]:
         raise ValueError(f"CodonTable.load column extraction not found: {fields}")
-    m = re.search(r'_default_table\s*=\s*CodonTable\.load\("([^"]+)"\)\.with_start_codons\(\[([^\]]*)\]\)', codon_src)
-    if not m:
-        raise ValueError("_default_table definition not found")
-    default_name = m.group(1)
-    default_starts = ast.literal_eval("[" + m.group(2) + "]")
-    m = re.search(r'if init\[i\] == "(.)":', codon_src)
-    if not m:
+    default_name = default_starts = None
+    for node in codon_tree.body:        # `<name> = CodonTable.load("…").with_start_codons([…])` at module level
+        if isinstance(node, ast.Assign) and isinstance(node.value, ast.Call) and isinstance(node.value.func, ast.Attribute) \
+                and node.value.func.attr == "with_start_codons" and isinstance(node.value.func.value, ast.Call) \
+                and ast.unparse(node.value.func.value.func) == "CodonTable.load":
+            default_name = ast.literal_eval(node.value.func.value.args[0])
+            default_starts = ast.literal_eval(node.value.args[0])
+    if default_name is None:
+        raise ValueError("default table definition not found")
+    marks = [c.comparators[0].value for c in ast.walk(load_fn) if isinstance(c, ast.Compare) and isinstance(c.left, ast.Subscript)
+             and len(c.ops) == 1 and isinstance(c.ops[0], ast.Eq) and isinstance(c.comparators[0], ast.Constant)
+             and isinstance(c.comparators[0].value, str) and len(c.comparators[0].value) == 1]
+    if len(marks) != 1:
         raise ValueError("start marker test not found in CodonTable.load")
-    start_marker = m.group(1)
+    start_marker = marks[0]
     tables = parse_codon_tables(open(os.path.join(base, "codon_tables.txt")).read(), fields)
     if not tables:
         raise ValueError("no tables in codon_tables.txt")
@@ -191,11 +218,319 @@ def gen_lean():
         names = ", ".join('"' + n.replace('"', '\\"') + '"' for n in t["names"])
         rows.append(f"  ⟨{t['id']}, [{names}], {_b(t['AA'])}, {_b(t['Init'])}, {_b(t['Base1'])}, {_b(t['Base2'])}, {_b(t['Base3'])}⟩")
     L.append(",\n".join(rows) + "]")
+    # ---- structural facts of the anchored functions (pass 7 / 8)
+    groups, ladders = source_facts()
+
+    def lstr(x):
+        return '"' + x.replace("\\", "\\\\").replace('"', '\\"') + '"'
+    for gname in ("alphabet", "sequence", "translate", "codon", "kmer", "defaults"):
+        L.append(f"/-- alpha-normalised facts of the source, group `{gname}` (function, facts). -/")
+        L.append(f"def facts{gname.capitalize()} : List (String × String) := [")
+        L.append(",\n".join(f"  ({lstr(k)}, {lstr(v)})" for k, v in groups[gname]) + "]")
+    bits = {"np.uint8": 8, "np.uint16": 16, "np.uint32": 32}
+    for cname, lname in (("Sequence", "seqDtypeLadder"), ("AlphabetMapper", "mapperDtypeLadder")):
+        L.append(f"/-- `{cname}`'s dtype ladder: (comparison, bound, bits of the unsigned dtype returned), thresholds evaluated. -/")
+        L.append(f"def {lname} : List (String × Nat × Nat) := [" + ", ".join(f'("{op}", {b}, {bits.get(r, 0)})' for op, b, r in ladders[cname]) + "]")
+    tr = _sf_find(seqtypes, "NucleotideSequence", "translate")
+    enc_consts = [n.args[0].value for n in ast.walk(tr) if isinstance(n, ast.Call) and isinstance(n.func, ast.Attribute) and n.func.attr == "encode"
+                  and n.args and isinstance(n.args[0], ast.Constant) and isinstance(n.args[0].value, str)]
+    enc_consts = sorted(set(enc_consts), key=enc_consts.index)
+    frames = [n.iter.args[0].value for n in ast.walk(tr) if isinstance(n, ast.For) and isinstance(n.iter, ast.Call)
+              and getattr(n.iter.func, "id", None) == "range" and len(n.iter.args) == 1 and isinstance(n.iter.args[0], ast.Constant)]
+    if len(enc_consts) != 2 or len(frames) != 1:
+        raise ValueError(f"translate: stop/met symbols or frame loop not found ({enc_consts}, {frames})")
+    exps = None
+    for node in codon_tree.body:       # the radix multiplier: `[… ** n for n in (2, 1, 0)]` at module level
+        if isinstance(node, ast.Assign):
+            for c in ast.walk(node.value):
+                if isinstance(c, ast.ListComp) and isinstance(c.elt, ast.BinOp) and isinstance(c.elt.op, ast.Pow) \
+                        and isinstance(c.generators[0].iter, ast.Tuple):
+                    exps = [e.value for e in c.generators[0].iter.elts]
+    if exps is None:
+        raise ValueError("radix multiplier exponents not found in codon.py")
+    L += ["/-- `translate`: the symbols looked up for the stop / methionine code (in this order) and the number of frames. -/",
+          f"def stopSymbol : Nat := {ord(enc_consts[0])}", f"def metSymbol : Nat := {ord(enc_consts[1])}", f"def frameCount : Nat := {frames[0]}",
+          "/-- exponents of the radix multiplier of `CodonTable._to_number`. -/",
+          "def radixExponents : List Nat := [" + ", ".join(str(e) for e in exps) + "]"]
     L += ["/-- `_default_table = CodonTable.load(name).with_start_codons(starts)`. -/",
           f'def defaultTableName : String := "{default_name}"',
           "def defaultStarts : List (List Nat) := [" + ", ".join(_b(s) for s in default_starts) + "]",
           "end BiotiteModel.Gen.C03", ""]
     return {"BiotiteModel/Gen/C03.lean": "\n".join(L)}
+
+
+
+# ---------------------------------------------------------------- structural source facts (tie pass 7 / 8)
+# Functions are alpha-normalised (parameters positional, locals anonymous, private globals / attributes numbered by first
+# use, docstrings / annotations / messages / assertions dropped) and reduced to ordered lists of FACTS: the atomic tests of
+# if/while conditions, every comparison, the exception classes raised, numeric constants in arithmetic and slices,
+# constant arguments of calls, returned names.  Renames, rewording and most restructuring leave them unchanged; a changed
+# operator, constant, order of checks, default or exception class changes them.
+def _sf_strip(fn):
+    """drop docstring, annotations"""
+    fn = ast.parse(ast.unparse(fn)).body[0]
+    if fn.body and isinstance(fn.body[0], ast.Expr) and isinstance(getattr(fn.body[0], "value", None), ast.Constant) and isinstance(fn.body[0].value.value, str):
+        fn.body = fn.body[1:] or [ast.Pass()]
+    fn.returns = None
+    for a in fn.args.args + fn.args.kwonlyargs + fn.args.posonlyargs:
+        a.annotation = None
+    return fn
+
+def _sf_params(fn):
+    return [a.arg for a in fn.args.posonlyargs + fn.args.args + fn.args.kwonlyargs]
+
+def _sf_locals(fn):
+    out = []
+    for n in ast.walk(fn):
+        if isinstance(n, ast.Name) and isinstance(n.ctx, ast.Store) and n.id not in out:
+            out.append(n.id)
+        if isinstance(n, ast.ExceptHandler) and n.name and n.name not in out:
+            out.append(n.name)
+    return out
+
+class _SfNorm(ast.NodeTransformer):
+    def __init__(self, fn):
+        self.p = {p: f"p{i}" for i, p in enumerate(_sf_params(fn))}
+        self.loc = set(_sf_locals(fn))
+        self.lmap, self.gmap, self.amap = {}, {}, {}
+    def visit_Name(self, n):
+        i = n.id
+        if i in self.p: n.id = self.p[i]
+        elif i in self.loc: n.id = "v"          # locals are not told apart: their number and order is not behaviour
+        elif i.startswith("_"): n.id = self.gmap.setdefault(i, f"_g{len(self.gmap)}")
+        return n
+    def visit_Attribute(self, n):
+        self.generic_visit(n)
+        if n.attr.startswith("_") and not n.attr.startswith("__"):
+            n.attr = self.amap.setdefault(n.attr, f"_a{len(self.amap)}")
+        return n
+    def visit_Raise(self, n):
+        self.generic_visit(n)
+        if isinstance(n.exc, ast.Call): n.exc = n.exc.func
+        n.cause = None
+        return n
+    def visit_Assert(self, n):
+        return None       # assertions carry no behaviour of valid runs
+    def visit_AnnAssign(self, n):
+        self.generic_visit(n)
+        return ast.Assign(targets=[n.target], value=n.value, lineno=0) if n.value else None
+
+def _sf_norm(fn):
+    fn = _sf_strip(fn)
+    fn = _SfNorm(fn).visit(fn)
+    ast.fix_missing_locations(fn)
+    return fn
+
+def _sf_atoms(e, out):
+    if isinstance(e, ast.BoolOp):
+        for v in e.values: _sf_atoms(v, out)
+    elif isinstance(e, ast.UnaryOp) and isinstance(e.op, ast.Not):
+        _sf_atoms(e.operand, out)
+    elif isinstance(e, ast.BinOp) and isinstance(e.op, (ast.BitOr, ast.BitAnd)):
+        _sf_atoms(e.left, out); _sf_atoms(e.right, out)
+    else:
+        out.append(ast.unparse(e))
+
+class _SfFacts(ast.NodeVisitor):
+    def __init__(self):
+        self.tests, self.raises, self.consts, self.strs, self.returns, self.cmps = [], [], [], [], [], []
+
+    def visit_Compare(self, n):
+        self.cmps.append(ast.unparse(n)); self.generic_visit(n)
+
+    def visit_Subscript(self, n):
+        sl = n.slice
+        if isinstance(sl, ast.Slice):
+            for tag, b in (("lo", sl.lower), ("hi", sl.upper)):
+                if isinstance(b, ast.Constant) and isinstance(b.value, int):
+                    self.consts.append(f"Slice{tag}{b.value}")
+        self.generic_visit(n)
+    def visit_If(self, n):
+        _sf_atoms(n.test, self.tests); self.generic_visit(n)
+    def visit_While(self, n):
+        _sf_atoms(n.test, self.tests); self.generic_visit(n)
+    def visit_IfExp(self, n):
+        _sf_atoms(n.test, self.tests); self.generic_visit(n)
+    def visit_Raise(self, n):
+        self.raises.append(ast.unparse(n.exc) if n.exc else "reraise")
+    def visit_BinOp(self, n):
+        for side, other in ((n.left, n.right), (n.right, n.left)):
+            if isinstance(side, ast.Constant) and isinstance(side.value, (int, float)) and not isinstance(side.value, bool):
+                self.consts.append(type(n.op).__name__ + ("L" if side is n.left else "R") + str(side.value))
+        self.generic_visit(n)
+    def visit_Call(self, n):
+        for a in n.args:
+            if isinstance(a, ast.Constant) and isinstance(a.value, (str, int)) and not isinstance(a.value, bool):
+                self.strs.append(ast.unparse(n.func).split(".")[-1] + "(" + repr(a.value) + ")")
+        self.generic_visit(n)
+    def visit_Return(self, n):
+        if n.value is not None and isinstance(n.value, (ast.Constant, ast.Attribute, ast.Name)):
+            self.returns.append(ast.unparse(n.value))
+        self.generic_visit(n)
+
+def _sf_facts(fn, want="trcs"):
+    f = _SfFacts(); f.visit(_sf_norm(fn))
+    for name in ("tests", "consts", "strs", "returns", "cmps"):      # repeated evaluation of the same thing is not a fact
+        setattr(f, name, list(dict.fromkeys(getattr(f, name))))
+    f.raises = sorted(set(f.raises))                                  # which classes can be raised, not how often
+    parts = []
+    if "t" in want: parts.append("tests=" + " ; ".join(f.tests))
+    if "r" in want: parts.append("raises=" + ",".join(f.raises))
+    if "c" in want: parts.append("consts=" + ",".join(f.consts))
+    if "s" in want: parts.append("calls=" + ",".join(f.strs))
+    if "R" in want: parts.append("returns=" + ",".join(f.returns))
+    if "k" in want: parts.append("compares=" + " ; ".join(f.cmps))
+    return " | ".join(parts)
+
+def _sf_find(tree, cls, name, deco=None):
+    for c in tree.body:
+        if isinstance(c, ast.ClassDef) and c.name == cls:
+            for f in c.body:
+                if isinstance(f, ast.FunctionDef) and f.name == name:
+                    if deco is None and not any("setter" in ast.unparse(d) for d in f.decorator_list): return f
+                    if deco and any(deco in ast.unparse(d) for d in f.decorator_list): return f
+    raise ValueError(f"{cls}.{name} not found")
+
+
+
+def _sf_defaults(fn):
+    """`param=default` of every parameter that has a default (annotations dropped)"""
+    a = fn.args
+    pos = a.posonlyargs + a.args
+    out = []
+    for arg, d in zip(pos[len(pos) - len(a.defaults):], a.defaults):
+        out.append(f"{arg.arg}={ast.unparse(d)}")
+    for arg, d in zip(a.kwonlyargs, a.kw_defaults):
+        if d is not None:
+            out.append(f"{arg.arg}={ast.unparse(d)}")
+    return ",".join(out)
+
+
+def _pyx_function(src, name):
+    m = re.search(r"^(\s*)def " + re.escape(name) + r"\(", src, re.M)
+    if not m:
+        raise ValueError(f"function {name} not found in .pyx")
+    ind = m.group(1)
+    rest = src[m.end():]
+    m2 = re.search(r"^" + ind + r"(?:def |@|class )", rest, re.M)
+    body = rest[:m2.start()] if m2 else rest
+    body = re.sub(r'"""(?:.|\n)*?"""', "", body)
+    return re.sub(r"#[^\n]*", "", body)
+
+
+def _pyx_guards(src, name):
+    """(comparison operators of the condition, exception class) of every `if …: raise X(` in a .pyx function, in order"""
+    body = _pyx_function(src, name)
+    out = []
+    for m in re.finditer(r"if ([^\n]*?):[ \t]*\n(?:[ \t]+(?!raise\b|if\b|elif\b|else\b|for\b|while\b)[^\n]*\n|[ \t]*\n){0,5}?[ \t]*raise (\w+)", body):
+        cond = re.sub(r"<\s*(?:unsigned\s+)?\w+\s*>", "", m.group(1))      # C casts
+        out.append("".join(re.findall(r">=|<=|==|!=|>|<|\bnot in\b|\bin\b", cond)) + "->" + m.group(2))
+    return ",".join(out)
+
+
+def source_facts():
+    from common import paths
+    base = os.path.join(paths.SRC, "biotite/sequence")
+    T = {f: ast.parse(open(os.path.join(base, f)).read()) for f in ("alphabet.py", "sequence.py", "seqtypes.py", "codon.py")}
+    groups = {"alphabet": [], "sequence": [], "translate": [], "codon": [], "kmer": [], "defaults": []}
+
+    def add(group, f, cls, name, want, deco=None, keep=None):
+        txt = _sf_facts(_sf_find(T[f], cls, name, deco), want)
+        if keep:       # pin only the facts that carry the named constants (the rest of the function may be computed differently)
+            parts = []
+            for part in txt.split(" | "):
+                head, _, body = part.partition("=")
+                if head == "raises":
+                    parts.append(part)
+                else:
+                    parts.append(head + "=" + " ; ".join(x for x in body.split(" ; ") if re.search(keep, x)))
+            txt = " | ".join(parts)
+        groups[group].append((f"{cls}.{name}" + (".setter" if deco else ""), txt))
+
+    add("alphabet", "alphabet.py", "Alphabet", "__init__", "tr")
+    add("alphabet", "alphabet.py", "Alphabet", "decode", "kr")
+    add("alphabet", "alphabet.py", "Alphabet", "encode", "r")
+    add("alphabet", "alphabet.py", "Alphabet", "extends", "k")
+    add("alphabet", "alphabet.py", "LetterAlphabet", "__init__", "kr")
+    add("alphabet", "alphabet.py", "LetterAlphabet", "encode", "kr")
+    add("alphabet", "alphabet.py", "LetterAlphabet", "decode", "kr")
+    add("alphabet", "alphabet.py", "LetterAlphabet", "decode_multiple", "kr")
+    add("alphabet", "alphabet.py", "LetterAlphabet", "encode_multiple", "kr")
+    add("alphabet", "alphabet.py", "AlphabetMapper", "__init__", "t")
+    add("sequence", "sequence.py", "Sequence", "code", "kr", deco="setter")
+    add("sequence", "sequence.py", "Sequence", "__setitem__", "tkr")
+    add("sequence", "sequence.py", "Sequence", "__eq__", "t")
+    add("sequence", "sequence.py", "Sequence", "is_valid", "k")
+    add("sequence", "sequence.py", "Sequence", "__add__", "tr")
+    add("sequence", "sequence.py", "Sequence", "__getitem__", "t")
+    add("sequence", "seqtypes.py", "GeneralSequence", "as_type", "tr")
+    add("sequence", "seqtypes.py", "NucleotideSequence", "__init__", "t")
+    add("sequence", "seqtypes.py", "ProteinSequence", "__init__", "kr")
+    add("translate", "seqtypes.py", "NucleotideSequence", "translate", "krcs")
+    add("codon", "codon.py", "CodonTable", "_to_number", "kr")
+    add("codon", "codon.py", "CodonTable", "__init__", "kr", keep=r"!= 3|== -1")
+    add("codon", "codon.py", "CodonTable", "map_codon_codes", "kr")
+    add("codon", "codon.py", "CodonTable", "load", "tkrc")
+    # .pyx: guards by regex inside the function text
+    kmer = open(os.path.join(base, "align/kmeralphabet.pyx")).read()
+    for fn in ("__init__", "fuse", "split", "_create_continuous_kmers", "_create_spaced_kmers"):
+        groups["kmer"].append(("KmerAlphabet." + fn, _pyx_guards(kmer, fn)))
+    m = re.search(r"kmer = \((.*?)\n\s*kmers\[i\] = kmer", _pyx_function(kmer, "_create_continuous_kmers"), re.S)
+    if not m:
+        raise ValueError("rolling update of _create_continuous_kmers not found")
+    formula = re.sub(r"\s+", "", m.group(1))
+    ids = []
+    for x in re.findall(r"[A-Za-z_]\w*", formula):
+        if x not in ids:
+            ids.append(x)
+    for i, x in enumerate(ids):
+        formula = re.sub(r"\b" + x + r"\b", f"x{i}", formula)
+    groups["kmer"].append(("KmerAlphabet.rolling_update", formula))
+    codec = open(os.path.join(base, "codec.pyx")).read()
+    enc_body = _pyx_function(codec, "encode_chars")
+    sizes = re.findall(r"\[(\d+)\]", enc_body) + re.findall(r"\]\s*\*\s*(\d+)", enc_body)
+    groups["kmer"].append(("codec.encode_chars", _pyx_guards(codec, "encode_chars") + " table=" + ",".join(sizes)))
+    groups["kmer"].append(("codec.decode_to_chars", _pyx_guards(codec, "decode_to_chars")))
+    # defaults of the public entry points the adapter / model rely on
+    for f, cls, name in [("alphabet.py", "Alphabet", "encode_multiple"), ("alphabet.py", "LetterAlphabet", "encode_multiple"), ("alphabet.py", "LetterAlphabet", "decode_multiple"),
+                         ("alphabet.py", "LetterAlphabet", "decode"), ("sequence.py", "Sequence", "__init__"), ("sequence.py", "Sequence", "copy"), ("sequence.py", "Sequence", "reverse"),
+                         ("seqtypes.py", "GeneralSequence", "__init__"), ("seqtypes.py", "NucleotideSequence", "__init__"), ("seqtypes.py", "NucleotideSequence", "translate"),
+                         ("seqtypes.py", "ProteinSequence", "__init__"), ("codon.py", "CodonTable", "codon_dict"), ("codon.py", "CodonTable", "start_codons")]:
+        groups["defaults"].append((f"{cls}.{name}", _sf_defaults(_sf_find(T[f], cls, name))))
+    m = re.search(r"def __init__\(self, base_alphabet, k, spacing=(\w+)\)", kmer)
+    groups["defaults"].append(("KmerAlphabet.__init__", "spacing=" + (m.group(1) if m else "?")))
+    # the dtype ladder of Sequence.dtype / AlphabetMapper._dtype with the private thresholds evaluated
+    import numpy as np
+    ladders = {}
+    for f, cls, finder in (("sequence.py", "Sequence", None), ("alphabet.py", "AlphabetMapper", None)):
+        tree = T[f]
+        c = [x for x in tree.body if isinstance(x, ast.ClassDef) and x.name == cls][0]
+        lad = None
+        for fn in c.body:            # found by what it contains: a staticmethod returning np.uint8 … np.uint64 behind `<=` tests
+            if isinstance(fn, ast.FunctionDef) and any("staticmethod" in ast.unparse(d) for d in fn.decorator_list):
+                rets = [ast.unparse(r.value) for r in ast.walk(fn) if isinstance(r, ast.Return) and r.value is not None]
+                if [r for r in rets if r.startswith("np.uint")] and len(rets) == 4:
+                    env = {"np": np}
+                    for scope in (tree.body, fn.body):
+                        for st in scope:
+                            if isinstance(st, ast.Assign) and len(st.targets) == 1 and isinstance(st.targets[0], ast.Name):
+                                try:
+                                    env[st.targets[0].id] = eval(compile(ast.Expression(st.value), "<const>", "eval"), {"__builtins__": {}}, env)
+                                except Exception:  # noqa: BLE001
+                                    pass
+                    steps = []
+                    for node in ast.walk(fn):
+                        if isinstance(node, ast.If) and isinstance(node.test, ast.Compare) and len(node.test.ops) == 1:
+                            ret = [r for r in node.body if isinstance(r, ast.Return)]
+                            if ret:
+                                bound = eval(compile(ast.Expression(node.test.comparators[0]), "<bound>", "eval"), {"__builtins__": {}}, env)
+                                steps.append((node.test.lineno, type(node.test.ops[0]).__name__, int(bound), ast.unparse(ret[0].value)))
+                    steps.sort()
+                    lad = [(op, b, r) for _, op, b, r in steps]
+        if not lad or len(lad) != 3:
+            raise ValueError(f"dtype ladder of {cls} not found")
+        ladders[cls] = lad
+    return groups, ladders
 
 
 # ---------------------------------------------------------------- helpers shared by adapter / generator / oracle
@@ -380,7 +715,8 @@ def _run_local(case):
     # altered through a shared array (a defect in the code under test) cannot leak into later cases
     import biotite.sequence.codon as _codon
     try:
-        _codon._default_table = seq.CodonTable.load("Standard").with_start_codons(["ATG"])
+        gname = [n for n in seq.CodonTable.default_table.__code__.co_names if n in vars(_codon)][0]      # whatever the private global is called
+        setattr(_codon, gname, seq.CodonTable.load("Standard").with_start_codons(["ATG"]))
     except Exception:  # noqa: BLE001
         pass
 
